@@ -5,7 +5,7 @@ import os
 ROOT = os.path.dirname(os.path.dirname(os.path.abspath(__file__)))
 
 HOOK_COMMITS = ["7a8ba4f"]
-FIX_COMMITS = ["5737839", "2d5e69c", "bf43ee9", "0b45cfb", "823a22a"]
+FIX_COMMITS = ["5737839", "2d5e69c", "bf43ee9", "0b45cfb", "823a22a", "5be6b47"]
 
 CHECKS = {
     "C01": dict(
@@ -128,6 +128,16 @@ CHECKS["C11"] = dict(
          "under a fixed tolerance. The spec's table is cross-checked against pytket on every run.",
     note="Trusted: TLC, 10-line float comparison, pytket for validating the table. Phases on the 1/8-turn grid only.",
     ref="5/C11", technique="TLA+ exact-arithmetic spec + TLC as reference evaluator, replay of model circuits")
+
+CHECKS["C16"] = dict(
+    text="ZX.tla gives the standard interpretation of ZX generators over the exact ring and the translation table; "
+         "TLC proves, exactly, that every supported gate is proportional to its table entry at all 16 grid phases "
+         "and that the dagger rule of ZX diagrams denotes the conjugate transpose on all diagrams of the builder. "
+         "The ZX diagrams the real circuit2zx returns for model circuits (and all grid phases of the parametrised "
+         "gates) are judged by exact proportionality to Gates!Sem and wire counts; real .dagger() of builder "
+         "diagrams by exact equality with the conjugate transpose (J16).",
+    note="Trusted: TLC, projection of ZX boxes (phases must lie on the 1/16 grid, else machinery failure).",
+    ref="5/C16", technique="TLA+ exact-arithmetic spec + TLC, translation validation of recorded ZX images")
 
 NOT_YET = {}
 
